@@ -756,8 +756,11 @@ func (p *InlineParser) parseDelimiterRun(state *inlineState, start int) (end int
 		node.span.End++
 	}
 
+	// At the beginning of a line, the byte before the run belongs to the previous line
+	// or to a container marker (like the ">" of a block quote), not to the text.
+	atLineStart := state.unparsedPos < len(state.unparsed) && state.unparsed[state.unparsedPos].Span().Start == start
 	elem := delimiterStackElement{
-		flags: activeFlag | emphasisFlags(state.source, node.Span()),
+		flags: activeFlag | emphasisFlagsAt(state.source, node.Span(), atLineStart),
 		n:     node.Span().Len(),
 		node:  node,
 	}
@@ -1368,9 +1371,16 @@ func (p *InlineParser) lookForLinkOrImage(state *inlineState) int {
 // [can open emphasis]: https://spec.commonmark.org/0.30/#can-open-emphasis
 // [can close emphasis]: https://spec.commonmark.org/0.30/#can-close-emphasis
 func emphasisFlags(source []byte, span Span) uint8 {
+	return emphasisFlagsAt(source, span, false)
+}
+
+// emphasisFlagsAt is like emphasisFlags,
+// but if atLineStart is true, the delimiter run is the first thing on its line:
+// "the beginning and the end of the line count as Unicode whitespace".
+func emphasisFlagsAt(source []byte, span Span, atLineStart bool) uint8 {
 	var flags uint8
 	prevChar := ' '
-	if span.Start > 0 {
+	if span.Start > 0 && !atLineStart {
 		prevChar, _ = utf8.DecodeLastRune(source[:span.Start])
 	}
 	nextChar := ' '
